@@ -83,6 +83,11 @@ def keymap_specs_for(key_req, module, has_varargs, info_preserving_only=True, al
                     if key_req in ('str', 'strsafe') and kk != 'str':
                         continue
                     out.append(dict(base, cls='picklemap', opt=ser))
+    # chained keymaps (first link + this one): the options of the LAST link lay the call out, its encoding is applied last - the produced keys are
+    # of this link's kind. Only for the encoding links whose options matter (sentinel / typed)
+    for spec in list(out):
+        if spec['cls'] != 'keymap' and spec['flat'] and (spec['sentinel'] or spec['typed']):
+            out.append(dict(spec, then={'cls': 'stringmap', 'opt': 'repr', 'flat': True, 'typed': False, 'sentinel': False}))
     return out
 
 
@@ -111,6 +116,8 @@ def arg_values(draw, module, kkind, key_req, rich=False, no_ints=False):
         fl = st.sampled_from([0.5, 2.5, 0.125, 2.675, -1.5, 3.14159, 0.1]).map(lambda x: ['f', repr(x)])
         base = st.one_of(V.ints(), s, V.NONE, fl) if not no_ints else st.one_of(s, V.NONE, fl, fl)
         return draw(st.one_of(base, st.lists(base, max_size=2).map(lambda x: ['t', x])))
+    if rich and kkind in ('str', 'bytes', 'raw') and key_req in ('hashable', 'str', 'bindable') and draw(st.integers(0, 9)) == 0:
+        return ['R', draw(st.integers(0, 3))]       # a record object whose unknown attributes raise KeyError (see values.Record)
     if rich and kkind in ('str', 'bytes') and draw(st.integers(0, 3)) == 0:
         return draw(V.anyvalues(max_leaves=4, special_floats=False))
     return draw(V.hashables(max_depth=1, special_floats=False, big_ints=True))
@@ -315,10 +322,18 @@ def cache_cases(draw, modules=('std', 'safe'), algos=tuple(H.ALGOS), maxsizes=(1
     if has_va and not H.sig_names(sig) and kkind != 'pyhash' and key_req not in ('evalable',) and draw(st.booleans()):
         # purely variadic function: a pair of one-argument calls whose arguments print alike (1 / '1')
         lookalike = []
-        for spec in draw(st.sampled_from(LOOKALIKE_ARGS)):
-            nb = {'named': [], 'xpos': [list(spec)]}
-            if sig.get('varkw'):
-                nb['xkw'] = []
+        if sig.get('varkw') and draw(st.booleans()):
+            # the keyword part of one call spelled as the positionals of the other: f(k=v) and f('k', v) - what the sentinel tells apart
+            v = draw(valstrat)
+            pair = [{'named': [], 'xkw': [['k', v]]}, {'named': [], 'xpos': [['s', 'k'], v], 'xkw': []}]
+        else:
+            pair = []
+            for spec in draw(st.sampled_from(LOOKALIKE_ARGS)):
+                nb = {'named': [], 'xpos': [list(spec)]}
+                if sig.get('varkw'):
+                    nb['xkw'] = []
+                pair.append(nb)
+        for nb in pair:
             if nb not in pool_b:
                 pool_b.append(nb)
             lookalike.append(pool_b.index(nb))
